@@ -87,8 +87,8 @@ PROPS = {
                 witnesses_thorough=[("W_NoFastRecovery", "rel-mid")],
                 deviations=[("PopNoReset", "rel-small"), ("NoT3OnRetx", "rel-small")],
                 liveness=True, bind="C02"),
-    "C06": dict(focus=["C06", "EXC"], gen=_cfg_c06, nrand=(220, 2500), nsim=(60, 600), sim="sim-pr",
-                design=(["pr-tiny", "pr-fwdloss"], ["pr-tiny", "pr-fwdloss", "pr-back", "pr-small", "pr-big", "pr-mix"]),
+    "C06": dict(focus=["C06", "EXC"], gen=_cfg_c06, nrand=(220, 2500), nsim=(60, 600), sim="sim-pr", sim2="sim-life",
+                design=(["pr-tiny", "pr-fwdloss"], ["pr-tiny", "pr-fwdloss", "pr-back", "pr-life", "pr-small", "pr-big", "pr-mix"]),
                 witnesses=["W_NoAbandon", "W_NoRetransmission", "W_NotAllDelivered"],
                 deviations=[("NoPopAfterPrune", "pr-tiny"), ("NoFwdResend", "pr-fwdloss"), ("FwdSeqBackward", "pr-back"),
                             ("AbandonSentOnly", "pr-big"), ("PruneAllStreams", "pr-small"), ("FlightLeakOnAbandon", "pr-big")],
@@ -436,6 +436,11 @@ def run(prop):
                 simres, behs = M.simulate(sc, M.SIM_CONFIGS[p["sim"]], nsim, 70, sd, timeout=600)
                 if not behs:
                     raise T.MachineryError("no simulated behaviours\n" + simres.out[-1200:])
+                behs2 = []
+                if p.get("sim2"):
+                    simres2, behs2 = M.simulate(sc, M.SIM_CONFIGS[p["sim2"]], max(8, nsim // 2), 70, sd + 1, timeout=600)
+                    if not behs2:
+                        raise T.MachineryError("no simulated behaviours (%s)\n%s" % (p["sim2"], simres2.out[-1200:]))
                 for beh in behs:
                     for _, st in beh[1:]:
                         acts_cov[st["act"]["op"]] = acts_cov.get(st["act"]["op"], 0) + 1
@@ -446,7 +451,12 @@ def run(prop):
                 if prop == "C17":
                     origins = [(1000, 2000), (2 ** 32 - 3, 2 ** 32 - 1), (2 ** 32 - 40, 7), (2 ** 31 - 2, 2 ** 31 + 5)]
                 chunks = [behs[i::procs] for i in range(procs) if behs[i::procs]]
-                for out in _pool(_lockstep_batch, [(prop, p["sim"], c, origins) for c in chunks], procs):
+                jobs = [(prop, p["sim"], c, origins) for c in chunks]
+                jobs += [(prop, p["sim2"], behs2[i::procs], origins) for i in range(procs) if behs2[i::procs]]
+                for beh in behs2:
+                    for _, st in beh[1:]:
+                        acts_cov[st["act"]["op"]] = acts_cov.get(st["act"]["op"], 0) + 1
+                for out in _pool(_lockstep_batch, jobs, procs):
                     for tr in out:
                         ls_steps += tr["steps"]
                         ls_matched += tr["matched"]
